@@ -290,6 +290,8 @@ def run(ctx):
 
 
 # ----------------------------------------------------------------------------------------------------------------------
+    check_continuation_tests(ctx)
+
 
 def check_use(ctx, F):
     res = Resolver(ctx.repo, ctx.ev)
@@ -373,3 +375,47 @@ def check_use(ctx, F):
     ctx.check('R9.3', ok, 'fst_put_one', '_make_exprlike_fst.need_pars', 'precedence_require_parens(put_ast, self.a, field, idx)',
               'need_pars() must ask precedence_require_parens(put_ast, self.a, field, idx) for every non-atom put',
               np[0].lineno)
+
+
+# ---- R9.4 ------------------------------------------------------------------------------------------------------------
+# `line.endswith('\\')` is not a line-continuation test: a comment may end with a backslash.  The comment-aware tests of the
+# repository are the regexes of common.py (`re_line_end_cont_or_comment`, ...), fst_core._re_line_end_cont and next_frag / prev_frag.
+R94_REVIEWED = {
+    ('fst_core', '_is_enclosed_or_line'):
+        'only inside the span of a multi-line string / f-string literal, where every line is a continuation anyway (the comment in the '
+        'source says so); the code-level loops of the function use _re_line_end_cont',
+    ('slice_stmtlike', 'SrcEdit.get_slice_stmt'):
+        'used as a cheap pre-filter only; the same condition then asks prev_frag(..., comment=True) and backs off on a comment (R4.3b keeps '
+        'that guard alive)',
+}
+
+
+def check_continuation_tests(ctx):
+    from ..model import walk_no_nested
+    ctx.rule('R9.4', 'a physical source line is taken for continued only by a comment-aware test, never by a bare endswith(backslash)', 2)
+    counts = {}
+    for fi in ctx.repo.all_funcs():
+        if isinstance(fi.node, ast.Lambda):
+            continue
+        for c in walk_no_nested(fi.node):
+            if isinstance(c, ast.Call) and isinstance(c.func, ast.Attribute) and c.func.attr == 'endswith' and c.args and \
+                    isinstance(c.args[0], ast.Constant) and c.args[0].value == '\\':
+                recv = c.func.value
+                # a line of source: subscript of a lines list (`lines[i]`, `self._lines[i]`) or a local bound to one
+                is_line = isinstance(recv, ast.Subscript) and 'lines' in norm(recv.value)
+                if isinstance(recv, ast.Name):
+                    for n in walk_no_nested(fi.node):
+                        if isinstance(n, (ast.Assign, ast.NamedExpr)):
+                            t = n.targets[0] if isinstance(n, ast.Assign) else n.target
+                            if isinstance(t, ast.Name) and t.id == recv.id and isinstance(n.value, ast.Subscript) and 'lines' in norm(n.value.value):
+                                is_line = True
+                if not is_line:
+                    continue
+                k = (fi.module, fi.qualname.split('[')[0])
+                counts[k] = counts.get(k, 0) + 1
+                rv = R94_REVIEWED.get(k)
+                ok = bool(rv) and counts[k] <= 1     # one reviewed site per function: a second one is new
+                ctx.check('R9.4', ok, fi.module, fi.qualname, f'{norm(c, 60)} #{counts[k]}',
+                          'a source line ending in a backslash is taken for a line continuation, but a comment may end in a backslash too: the '
+                          'node is then believed to be one logical line and is left without the parentheses it needs (unparsable result)',
+                          c.lineno, sample={'function': fi.key, 'test': norm(c, 60), 'reviewed': rv})
